@@ -1,7 +1,7 @@
 (* How one step of the system looks from one actor: either only its "client" fields changed
    (mailbox, accepted, waiters, granted, hop, buffered kill signal, reference count), or it took an
    actor-side step described by [Local], or one of its hooks panicked on a detected ask cycle. *)
-From RS Require Import Tactics Frame ListFacts ClientFrame NF ActorSpec.
+From RS Require Import Tactics Frame ListFacts Spec Silent Lifecycle ClientFrame NF ActorSpec.
 
 (* everything about an actor that the client-side machinery never touches *)
 Definition core (x : actor) : actor :=
@@ -60,18 +60,18 @@ Proof. unfold ref_upgrade. repeat case_match; try apply psame_refl. apply psame_
 
 (* the result of a detected ask cycle for the asking actor *)
 Inductive DdPanic (s : sys) (b : aid) (x : actor) : (actor -> actor) -> (op -> op) -> list event -> Prop :=
-| DdP_plain cyc ev0 :
+| DdP_plain cyc o0 k0 t0 :
     in_hook x = true -> (forall o k, a_pc x <> PHandle o k) ->
     DdPanic s b x (fun y => end_f (set_a_pc PPanicked y)) (close_fo (asks_of (a_mbox x)) ido)
-            [EvEnd b None; EvDeadlock b cyc; ev0]
-| DdP_handle cyc ev0 o k :
+            [EvEnd b None; EvDeadlock b cyc; EvBegin o0 k0 t0]
+| DdP_handle cyc o0 k0 t0 o k :
     a_pc x = PHandle o k ->
     DdPanic s b x (fun y => end_f (set_a_pc PPanicked (mrec_f (f_metrics (s_feat s)) y)))
             (close_fo (asks_of (a_mbox x)) (handle_close o k ido))
-            [EvEnd b None; EvDeadlock b cyc; ev0].
+            [EvEnd b None; EvDeadlock b cyc; EvBegin o0 k0 t0].
 
 Inductive StepCase (s : sys) (l : label) (a : aid) (x y : actor) : Prop :=
-| SC_client : core y = core x -> StepCase s l a x y
+| SC_client : core y = core x -> hook_events (sys_step s l) a = hook_events s a -> StepCase s l a x y
 | SC_local f fo evs :
     label_actor l = Some a -> Local s a x l f fo evs -> y = f x -> sys_step s l = NF a f fo evs s ->
     StepCase s l a x y
@@ -85,64 +85,111 @@ Proof.
   apply nth_error_Some. congruence.
 Qed.
 
+Lemma hook_events_silent s s' a : silent s s' -> hook_events s' a = hook_events s a.
+Proof.
+  intros H. destruct (trans_silent a s s' H) as (_ & _ & E). rewrite E.
+  destruct (a =? a); apply app_nil_r.
+Qed.
+
+Lemma hook_events_NF_other s a b f fo evs :
+  (forall e, In e evs -> hook_ev_of a e = false) ->
+  hook_events (NF b f fo evs s) a = hook_events s a.
+Proof.
+  intros H. unfold hook_events. rewrite NF_trace, rev_app_distr, filter_app.
+  assert (filter (hook_ev_of a) (rev evs) = []) as ->; [|apply app_nil_r].
+  assert (forall e, In e (rev evs) -> hook_ev_of a e = false) as H' by (intros e He; apply H, in_rev, He).
+  induction (rev evs) as [|e l IH]; [reflexivity|]. cbn. rewrite (H' e (or_introl eq_refl)).
+  apply IH. intros e' He'. apply H'. right; exact He'.
+Qed.
+
+Lemma hook_events_NF_self s a f fo evs :
+  hook_events (NF a f fo evs s) a = hook_events s a ++ filter (hook_ev_of a) (rev evs).
+Proof. unfold hook_events. rewrite NF_trace, rev_app_distr, filter_app. reflexivity. Qed.
+
+Lemma local_evs_other s b x l f fo evs a :
+  Local s b x l f fo evs -> a <> b -> forall e, In e evs -> hook_ev_of a e = false.
+Proof.
+  intros HL Hne e He. apply Nat.eqb_neq in Hne. rewrite Nat.eqb_sym in Hne.
+  inversion HL; subst;
+    try match goal with H : _ \/ _ |- _ => destruct H as [->|[_ ->]] end;
+    try match goal with k : okind |- _ => destruct k end;
+    cbn [In] in He;
+    repeat match goal with H : _ \/ _ |- _ => destruct H as [<-|H] end;
+    try contradiction; cbn; rewrite ?Hne; reflexivity.
+Qed.
+
 Lemma begin_cases s o k a caller tmo fn b x :
   get_actor s b = Some x ->
   exists y, get_actor (begin o k a caller tmo fn s) b = Some y /\
             StepCase s (LBegin o k a caller tmo fn) b x y.
 Proof.
   intros Hx.
-  assert (Es' : sys_step s (LBegin o k a caller tmo fn) = begin o k a caller tmo fn s) by reflexivity.
-  assert (Hsame : forall st, st = s -> exists y, get_actor st b = Some y /\ StepCase s (LBegin o k a caller tmo fn) b x y).
-  { intros st ->. exists x. split; [exact Hx|apply SC_client; reflexivity]. }
-  unfold begin in *.
-  destruct (get_op s o) eqn:Hfresh; [apply Hsame; reflexivity|].
-  destruct (get_actor s a) as [xa|] eqn:Hxa; [|apply Hsame; reflexivity].
-  destruct (caller_ok s caller && (0 <? a_ext xa)) eqn:Hc; [|apply Hsame; reflexivity].
+  remember (begin o k a caller tmo fn s) as s' eqn:Es'.
+  assert (Est : sys_step s (LBegin o k a caller tmo fn) = s') by (rewrite Es'; reflexivity).
+  assert (Hsame : s' = s -> exists y, get_actor s' b = Some y /\ StepCase s (LBegin o k a caller tmo fn) b x y).
+  { intros ->. exists x. split; [exact Hx|apply SC_client; [reflexivity|rewrite Est; reflexivity]]. }
+  unfold begin in Es'.
+  destruct (get_op s o) eqn:Hfresh; [apply Hsame, Es'|].
+  destruct (get_actor s a) as [xa|] eqn:Hxa; [|apply Hsame, Es'].
+  destruct (caller_ok s caller && (0 <? a_ext xa)) eqn:Hc; [|apply Hsame, Es'].
   apply andb_prop in Hc. destruct Hc as [Hc _].
   set (s0 := emit (EvBegin o k a) s) in *.
-  assert (Hsend : forall p g, (forall st, csame s st -> csame s (g st)) ->
-            exists y, get_actor (post_inner o (try_send p (set_hop caller o (g (set_s_ops (s_ops s0 ++ [p]) s0))))) b = Some y /\
-                      StepCase s (LBegin o k a caller tmo fn) b x y).
-  { intros p g Hg.
-    destruct (csame_get s (post_inner o (try_send p (set_hop caller o (g (set_s_ops (s_ops s0 ++ [p]) s0))))) b x) as (y & Hy & E);
-      [|exact Hx|exists y; split; [exact Hy|apply SC_client, E]].
-    apply psame_post_inner; try (intros; reflexivity). apply psame_try_send; try (intros; reflexivity).
-    apply psame_set_hop; try (intros; reflexivity). apply Hg. unfold csame, psame. reflexivity. }
+  assert (Hs0 : silent s s0) by (apply silent_emit; [reflexivity|apply silent_refl]).
+  assert (Hsend : csame s s' -> silent s s' ->
+            exists y, get_actor s' b = Some y /\ StepCase s (LBegin o k a caller tmo fn) b x y).
+  { intros H1 H2. destruct (csame_get s s' b x H1 Hx) as (y & Hy & E).
+    exists y. split; [exact Hy|apply SC_client; [exact E|rewrite Est; apply hook_events_silent, H2]]. }
   destruct (dd_check s k caller xa) as [|c bid|c cyc] eqn:Hdd.
-  - apply (Hsend _ (fun st => st)). intros st H; exact H.
-  - apply (Hsend _ (fun st => set_s_graph (g_insert bid (a_id xa) (s_graph s0)) st)). intros st H; exact H.
+  - apply Hsend; rewrite Es'.
+    + apply psame_post_inner; try (intros; reflexivity). apply psame_try_send; try (intros; reflexivity).
+      apply psame_set_hop; try (intros; reflexivity); try (unfold csame, psame; reflexivity).
+    + apply silent_post_inner, silent_try_send, silent_set_hop, silent_set_ops, Hs0.
+  - apply Hsend; rewrite Es'.
+    + apply psame_post_inner; try (intros; reflexivity). apply psame_try_send; try (intros; reflexivity).
+      apply psame_set_hop; try (intros; reflexivity); try (unfold csame, psame; reflexivity).
+    + apply silent_post_inner, silent_try_send, silent_set_hop, silent_set_graph, silent_set_ops, Hs0.
   - (* the caller c panics *)
     unfold dd_check in Hdd. destruct k; try discriminate. destruct caller as [c'|]; try discriminate.
     destruct (f_dd (s_feat s)); try discriminate.
     destruct (get_actor s c') as [xc|] eqn:Hxc; try discriminate.
     destruct (N.eqb (a_id xc) (a_id xa) || has_path (s_graph s) (a_id xa) (a_id xc)); try discriminate.
     injection Hdd as <- <-. cbn in Hc. rewrite Hxc in Hc. apply andb_prop in Hc. destruct Hc as [Hhook _].
-    assert (Hfin : forall F FO EVS,
-               panic_actor c' (emit (EvDeadlock c' (format_cycle (s_graph s) (a_id xc) (a_id xa))) s0) = NF c' F FO EVS s ->
-               DdPanic s c' xc F FO EVS ->
-               exists y, get_actor (panic_actor c' (emit (EvDeadlock c' (format_cycle (s_graph s) (a_id xc) (a_id xa))) s0)) b = Some y /\
-                         StepCase s (LBegin o KAsk a (Some c') tmo fn) b x y).
-    { intros F FO EVS E HD. rewrite E, NF_get_actor. destruct (Nat.eqb_spec b c') as [->|Hne].
+    assert (Hfin : forall F FO ev0 cyc,
+               s' = NF c' F FO [EvEnd c' None; EvDeadlock c' cyc; ev0] s -> ev0 = EvBegin o KAsk a ->
+               is_hook_ev ev0 = false ->
+               DdPanic s c' xc F FO [EvEnd c' None; EvDeadlock c' cyc; ev0] ->
+               exists y, get_actor s' b = Some y /\ StepCase s (LBegin o KAsk a (Some c') tmo fn) b x y).
+    { intros F FO ev0 cyc E _ Hq HD. rewrite E, NF_get_actor. destruct (Nat.eqb_spec b c') as [->|Hne].
       - rewrite Hx. cbn [option_map]. exists (F x). split; [reflexivity|].
         rewrite Hxc in Hx. injection Hx as <-.
-        eapply (SC_ddpanic _ _ _ _ _ F FO EVS); [exact HD|reflexivity|]. rewrite Es'. exact E.
-      - exists x. split; [exact Hx|apply SC_client; reflexivity]. }
+        eapply (SC_ddpanic _ _ _ _ _ F FO _); [exact HD|reflexivity|]. rewrite Est. exact E.
+      - exists x. split; [exact Hx|]. apply SC_client; [reflexivity|].
+        rewrite Est, E. apply hook_events_NF_other. intros e [<-|[<-|[<-|[]]]].
+        + reflexivity.
+        + cbn. apply Nat.eqb_neq. congruence.
+        + destruct (hook_ev_of b ev0) eqn:E0; [|reflexivity]. apply hook_ev_is_hook in E0. congruence. }
     destruct (a_pc xc) as [| | |ho hk| | |] eqn:Hpc.
     all: try (unfold in_hook in Hhook; rewrite Hpc in Hhook; discriminate).
     + eapply Hfin.
-      * unfold s0. rewrite (emit_NF0 c' s (EvBegin o KAsk a)), NF_emit.
+      * rewrite Es'. unfold s0. rewrite (emit_NF0 c' s (EvBegin o KAsk a)), NF_emit.
         rewrite (NF_panic_actor_plain c' _ _ _ s xc Hxc) by (intros o' k'; unfold idf; rewrite Hpc; discriminate).
         reflexivity.
+      * reflexivity.
+      * reflexivity.
       * apply DdP_plain; [exact Hhook|]. intros o' k' E. unfold idf in E. rewrite Hpc in E. discriminate.
     + eapply Hfin.
-      * unfold s0. rewrite (emit_NF0 c' s (EvBegin o KAsk a)), NF_emit.
+      * rewrite Es'. unfold s0. rewrite (emit_NF0 c' s (EvBegin o KAsk a)), NF_emit.
         rewrite (NF_panic_actor_handle c' _ _ _ s xc ho hk Hxc) by (unfold idf; exact Hpc).
         reflexivity.
+      * reflexivity.
+      * reflexivity.
       * apply DdP_handle. exact Hpc.
     + eapply Hfin.
-      * unfold s0. rewrite (emit_NF0 c' s (EvBegin o KAsk a)), NF_emit.
+      * rewrite Es'. unfold s0. rewrite (emit_NF0 c' s (EvBegin o KAsk a)), NF_emit.
         rewrite (NF_panic_actor_plain c' _ _ _ s xc Hxc) by (intros o' k'; unfold idf; rewrite Hpc; discriminate).
         reflexivity.
+      * reflexivity.
+      * reflexivity.
       * apply DdP_plain; [exact Hhook|]. intros o' k' E. unfold idf in E. rewrite Hpc in E. discriminate.
 Qed.
 
@@ -152,8 +199,10 @@ Theorem step_cases s l a x :
   exists y, get_actor (sys_step s l) a = Some y /\ StepCase s l a x y.
 Proof.
   intros Hx.
-  assert (Hclient : forall s', csame s s' -> exists y, get_actor s' a = Some y /\ StepCase s l a x y).
-  { intros s' H. destruct (csame_get s s' a x H Hx) as (y & Hy & E). exists y. split; [exact Hy|apply SC_client, E]. }
+  assert (Hclient : csame s (sys_step s l) -> silent s (sys_step s l) ->
+                    exists y, get_actor (sys_step s l) a = Some y /\ StepCase s l a x y).
+  { intros H1 H2. destruct (csame_get s _ a x H1 Hx) as (y & Hy & E). exists y.
+    split; [exact Hy|apply SC_client; [exact E|apply hook_events_silent, H2]]. }
   assert (Hactor : forall b, label_actor l = Some b ->
             exists y, get_actor (sys_step s l) a = Some y /\ StepCase s l a x y).
   { intros b Hl. destruct (get_actor s b) as [xb|] eqn:Hxb.
@@ -161,18 +210,27 @@ Proof.
       rewrite E, NF_get_actor. destruct (Nat.eqb_spec a b) as [->|Hne].
       + rewrite Hx. cbn [option_map]. eexists. split; [reflexivity|]. rewrite Hxb in Hx. injection Hx as <-.
         eapply SC_local; [exact Hl|exact HL|reflexivity|exact E].
-      + exists x. split; [exact Hx|apply SC_client; reflexivity].
-    - rewrite (actor_step_absent s l b Hl Hxb). exists x. split; [exact Hx|apply SC_client; reflexivity]. }
-  destruct l; try (apply (Hactor a0); reflexivity); cbn [sys_step].
-  - exists x. split; [apply spawn_get_old, Hx|apply SC_client; reflexivity].
+      + exists x. split; [exact Hx|]. apply SC_client; [reflexivity|].
+        rewrite E. apply hook_events_NF_other. eapply local_evs_other; eassumption.
+    - pose proof (actor_step_absent s l b Hl Hxb) as Eabs. exists x. rewrite Eabs.
+      split; [exact Hx|apply SC_client; [reflexivity|rewrite Eabs; reflexivity]]. }
+  destruct l; try (apply (Hactor a0); reflexivity).
+  - exists x. cbn [sys_step]. split; [apply spawn_get_old, Hx|]. apply SC_client; [reflexivity|].
+    cbn [sys_step]. unfold spawn. destruct (cap =? 0); [reflexivity|].
+    unfold hook_events. cbn [s_trace emit set_s_trace set_s_next set_s_actors rev].
+    rewrite !filter_app. cbn [filter hook_ev_of].
+    assert (length (s_actors s) =? a = false) as ->.
+    { apply Nat.eqb_neq. intros E. unfold get_actor in Hx. assert (nth_error (s_actors s) a <> None) as Hn by congruence.
+      apply nth_error_Some in Hn. lia. }
+    rewrite !app_nil_r. reflexivity.
   - apply begin_cases, Hx.
-  - apply Hclient, csame_poll.
-  - apply Hclient, csame_cancel.
-  - apply Hclient, csame_kill.
-  - apply Hclient, csame_ref_clone.
-  - apply Hclient, csame_ref_drop.
-  - apply Hclient, csame_ref_upgrade.
-  - apply Hclient. unfold csame, psame. reflexivity.
+  - apply Hclient; cbn [sys_step]; [apply csame_poll|apply silent_poll, silent_refl].
+  - apply Hclient; cbn [sys_step]; [apply csame_cancel|apply silent_cancel, silent_refl].
+  - apply Hclient; cbn [sys_step]; [apply csame_kill|apply silent_kill, silent_refl].
+  - apply Hclient; cbn [sys_step]; [apply csame_ref_clone|apply silent_ref_clone, silent_refl].
+  - apply Hclient; cbn [sys_step]; [apply csame_ref_drop|apply silent_ref_drop, silent_refl].
+  - apply Hclient; cbn [sys_step]; [apply csame_ref_upgrade|apply silent_ref_upgrade, silent_refl].
+  - apply Hclient; cbn [sys_step]; [unfold csame, psame; reflexivity|apply silent_set_now, silent_refl].
 Qed.
 
 (* shape of a whole step, for facts about the actor list as a whole *)
